@@ -215,7 +215,9 @@ def run(ctx, chk):
     RW = chk.rule("R-WORDS", "strings: assemble_str emits, for every byte length, the full 4-byte little-endian chunks followed by exactly one "
                   "final word holding the remaining bytes, zero padded (so a NUL terminator always follows); Decoder::string consumes "
                   "first_null/4 + 1 words")
-    for n in range(0, 10):
+    from ..tree import small_literals as _sl
+    _k = max(_sl(ctx.rspirv.fn("rspirv::binary::assemble", "assemble_str")["body"]) | {0})
+    for n in range(0, max(10, 4 * (_k + 1) + 2)):
         inst = "assemble_str(%d bytes)" % n
         try:
             got = [asmx.as_w32(w) or w for w in asmx.string_words(ctx, n)]
